@@ -418,6 +418,7 @@ func run(r *vk.Runner) {
 	cases = append(cases, gj5s.RuleCases()...)
 	cases = append(cases, gj5s.AnnotationCases()...)
 	cases = append(cases, gj5s.ShapeCases()...)
+	cases = append(cases, gj5s.OddNameCases()...)
 	for _, c := range cases {
 		c := c
 		if r.Stopped() {
